@@ -406,7 +406,7 @@ def run_case(case, forced, mode):
 # ---------------------------------------------------------------------------------------------
 # exploration
 
-def explore(res, case, P, mode, budget, rng=None):
+def explore(res, case, P, mode, budget, rng=None, part=None):
     """iterative context bounding by prefix replay; exhaustive within P unless the budget runs out"""
     stack = [({}, 0)]
     executed = 0
@@ -459,6 +459,10 @@ def explore(res, case, P, mode, budget, rng=None):
                         f = dict(forced)
                         f[i] = t
                         children.append((f, used + 1))
+        if part is not None and not forced:
+            # the exploration of one program split over several shards: by the first forced decision
+            j, k = part
+            children = [c for ci, c in enumerate(children) if ci % k == j]
         if rng is not None:
             rng.shuffle(children)
         stack.extend(children)
@@ -473,10 +477,10 @@ def cases(tier):
         for a, b in two:
             out.append((("pool", ((a,), (b,)), ms, idle), 2))
         for a, b, c in itertools.product(POOL_OPS, repeat=3):
-            if (common.h64((a, b, c, ms, idle)) % (9 if tier == "quick" else 2)) == 0:
+            if (common.h64((a, b, c, ms, idle)) % (12 if tier == "quick" else 2)) == 0:
                 out.append((("pool", ((a, c), (b,)), ms, idle), 2))
         for a, b, c in itertools.product(["get_release", "get_destroy", "gar_raise_destroy", "clear"], repeat=3):
-            if (common.h64((a, b, c, ms, "3t")) % (6 if tier == "quick" else 1)) == 0:
+            if (common.h64((a, b, c, ms, "3t")) % (8 if tier == "quick" else 1)) == 0:
                 out.append((("pool", ((a,), (b,), (c,)), ms, idle), 1))
     # (ii) PooledClient
     for ms in (1, 2, None):
@@ -492,7 +496,8 @@ def cases(tier):
     # a thread that goes on after quit()/a failed call while another thread checks out: two preemptions are needed to
     # hand a doubly-released connection to two threads; explored exhaustively even in quick (budget override)
     for first in ("quit", "fail_recv", "illegal_key"):
-        out.append((("client", ((first, "set"), ("set",)), 2), 2, 9000))
+        for j in range(5):
+            out.append((("client", ((first, "set"), ("set",)), 2), 2, 2500, (j, 5)))
     return out
 
 
@@ -506,7 +511,7 @@ def shard(tier, seed, idx, n):
         case, P = entry[0], entry[1]
         if ci % n != idx:
             continue
-        budget = 700
+        budget = 700 if all(len(p) == 1 for p in case[1]) else 450
         if len(entry) > 2:
             budget = entry[2]
         elif tier == "thorough":
@@ -514,7 +519,7 @@ def shard(tier, seed, idx, n):
             single_ops = all(len(p) == 1 for p in case[1])
             # two single-operation threads: exhaustive within the bound; longer programs: a large shuffled-DFS budget
             budget = 30000 if (single_ops and len(case[1]) == 2) else 6000
-        ex, exhaustive = explore(res, case, P, mode, budget, random.Random(seed + ci))
+        ex, exhaustive = explore(res, case, P, mode, budget, random.Random(seed + ci), part=entry[3] if len(entry) > 3 else None)
         allex = allex and exhaustive
         if not exhaustive:
             res.count("cases_cut_by_budget")
